@@ -1,9 +1,9 @@
 package props
 
 import (
-	"sort"
 	"encoding/json"
 	"os"
+	"sort"
 	"testing"
 
 	"verif/internal/world"
